@@ -42,11 +42,11 @@ CLAIMED = {
             "Correspondence/oracle on the implementation: pairs, triples and random chains parse like their table-parenthesised texts and "
             "like the Coq model; programs re-rendered with whitespace/comments (backslash continuation)/redundant parentheses parse "
             "identically; 40 documented shorthands equal their expansions (implementation and model); 57 malformed programs are rejected. "
-            "Partial: the atom grammar is not proved.", "7.15",
+            "The lexer (Parse/Lex.v mirrors lex.rs; tokenisation compared with jaq's on programs, trivia variants, mutated and hand-made texts): white space and comments in front of a token change neither the token nor what follows nor the verdict, for every input. Partial: the grammar of atoms above the tokens is not proved.", "7.15",
             "Coq proof (precedence climbing, exhaustive finite tables) + parser correspondence + expansion oracles"),
     "C20": ("Theorems: the day-count algorithms are inverse on all of Z (every day number maps to a date and back), produce well-formed "
             "dates, agree with an independently written calendar (leap rule, month lengths) on every valid date of a 400-year era and are "
-            "400-year periodic; epochs outside the representable range are rejected, never wrapped. Correspondence: gmtime/mktime on integer "
+            "400-year periodic; epochs outside the representable range are rejected, never wrapped; every day number maps to a valid date (leap years included); gmtime | mktime is the identity on every whole number of seconds that gmtime accepts. Correspondence: gmtime/mktime on integer "
             "epochs and arrays against the Coq model; oracle: Python's datetime for gmtime/mktime/todate/fromdate, round trips (also "
             "fractional, to the microsecond), rejection of non-finite/non-numeric inputs and malformed arrays, RFC 3339 texts with offsets. "
             "Partial: fractional epochs and strftime/strptime by oracle only.", "7.20",
@@ -126,7 +126,7 @@ CLAIMED = {
             "to depth 2 over 14 atoms, random beyond) x small inputs through [p], path(p), path_value(p), p |= u and the assignment "
             "forms, implementation vs model. Oracle on the implementation: path/path_value/getpath agreement, the manual's reduction "
             "rules for |= as program equations, iter_upd/index_upd/slice_upd of the manual, value-constructing expressions fail. "
-            "Partial: getpath(path(p)) and the update table are not yet proved over the whole interpreter.", "7.2",
+            "getpath(path(p)) = p: for paths of any length through iteration, indices, slices and optional parts, every (value, path) pair that is yielded addresses its value - indexing the input along the path gives exactly the value (for values whose objects can be addressed by their own keys; a NaN key is the excluded case). Partial: the update table is not yet proved; the path evaluator's clauses for pipes and calls rest on the correspondence.", "7.2",
             "Coq proof (path level) + model/implementation correspondence + in-language identities"),
     "C10": ("Theorems: abs_index selects exactly the positions inside (negatives from the end), slice bounds are clipped into [0,len] "
             "with non-negative length, open bounds give the whole sequence. Correspondence + Python list-model oracle: exhaustive "
